@@ -158,7 +158,7 @@ def eval_text(case):
 
 EVALUATORS = {"is_url": eval_isurl, "text": eval_text}
 
-NEAR = ["http://foo.com/#!/page#section", "lemonde.fr/a?b=c#d#e", "http://a.com/x y#f#g", "http://a.com?x#y?z#w", "http://lemonde.fr", "https://lemonde.fr/a b", "lemonde.fr", "//lemonde.fr/x", "ftp://lemonde.fr", "wss://a.io/s", "gopher://a.io",
+NEAR = ["http://expyuzz4wqqyqhjn.onion/", "http://www.example.臺灣/path", "sub.site.onion", "http://lemonde.fr./", "http://foo.com/#!/page#section", "lemonde.fr/a?b=c#d#e", "http://a.com/x y#f#g", "http://a.com?x#y?z#w", "http://lemonde.fr", "https://lemonde.fr/a b", "lemonde.fr", "//lemonde.fr/x", "ftp://lemonde.fr", "wss://a.io/s", "gopher://a.io",
         "http://a.zzzz", "a.zzzz/x", "http://localhost", "http://localhost:8080/a b", "localhost", "http://127.0.0.1/x", "127.0.0.1",
         "http://256.1.1.1", "http://[::1]/", "[::1]", "http://a", "a", "http://a.b", "http://a.co", "HTTP://LEMONDE.FR/X", "http://é.fr",
         "http://xn--9ca.fr", "http://a.xn--p1ai", "http://a.рф", "http://user:pw@a.com/", "user@a.com", "http://a.com:80", "http://a.com:8",
@@ -183,7 +183,7 @@ def _isurl_nt(s):
 
 
 def _isurl_strategy(tier):
-    hosts = st.one_of(G.hosts(), G.hosts(tlds=["zzzz", "c0m", "x", "local", "com", "museum", "xn--p1ai", "рф"]),
+    hosts = st.one_of(G.hosts(), G.hosts(tlds=["zzzz", "c0m", "x", "local", "com", "museum", "xn--p1ai", "рф", "onion", "臺灣", "澳门"]),
                       st.sampled_from(["localhost", "127.0.0.1", "[::1]", "999.1.1.1", "a", "LOCALHOST", "10.0.0.1", "localhost.evil.zz"]))
     structs = G.url_structs(host_strategy=hosts, scheme_forms=("explicit", "explicit", "absent", "slashes"))
 
